@@ -58,6 +58,9 @@ def _rank(node, order):
     t = norm(node)
     if t in order:
         return order[t]
+    k = const_val(node, None)
+    if isinstance(k, int) and not isinstance(k, bool):
+        return k            # integer literals rank by their own value (callers rank symbols with small integers)
     if isinstance(node, ast.BinOp) and isinstance(node.op, (ast.Add, ast.Sub)) and const_val(node.right, None) == 1 and norm(node.left) in order:
         return order[norm(node.left)] + (0.5 if isinstance(node.op, ast.Add) else -0.5)
     return None
